@@ -7,6 +7,30 @@ use crate::zoo;
 use virtio_drivers::transport::mmio::{MmioTransport, VirtIOHeader};
 use virtio_drivers::transport::pci::PciTransport;
 
+thread_local! {
+    static CUR_MMIO: std::cell::RefCell<Option<std::rc::Rc<std::cell::RefCell<crate::mmio::VirtioMmioDev>>>> = const { std::cell::RefCell::new(None) };
+    static CUR_PCI: std::cell::RefCell<Option<std::rc::Rc<std::cell::RefCell<crate::pci::VirtioPciDev>>>> = const { std::cell::RefCell::new(None) };
+}
+
+/// The device raises its queue interrupt (sets the ISR bit the driver will read).
+pub fn raise_irq() {
+    if let Some(d) = CUR_MMIO.with(|c| c.borrow().clone()) {
+        if let Ok(mut d) = d.try_borrow_mut() {
+            d.isr |= 1;
+        }
+    } else if let Some(d) = CUR_PCI.with(|c| c.borrow().clone()) {
+        if let Ok(mut d) = d.try_borrow_mut() {
+            d.isr |= 1;
+        }
+    } else {
+        crate::transport::TSTATE.with(|t| {
+            if let Some(t) = t.borrow_mut().as_mut() {
+                t.isr |= 1;
+            }
+        });
+    }
+}
+
 pub enum AnyT {
     Model(ModelTransport),
     Mmio(MmioTransport<'static>),
@@ -21,7 +45,9 @@ pub fn make(transport: &str, kind: &str, offered: u64, legacy: bool, max_queue: 
         use virtio_drivers::transport::pci::bus::{Cam, DeviceFunction, MmioCam, PciRoot};
         let mut d = crate::pci::VirtioPciDev::new(offered, nq, std::cmp::min(max_queue, 32768) as u16, cfg.clone(), 4);
         d.reset_lag = 1;
-        crate::pci::install_standard((0, 3, 0), dt as u32, d, cfg.len(), !cfg.is_empty());
+        let dev = crate::pci::install_standard((0, 3, 0), dt as u32, d, cfg.len(), !cfg.is_empty());
+        CUR_PCI.with(|c| *c.borrow_mut() = Some(dev));
+        CUR_MMIO.with(|c| *c.borrow_mut() = None);
         crate::pci::with_bus(|b| b.log = false);
         let df = DeviceFunction { bus: 0, device: 3, function: 0 };
         let r = if transport == "pcicam" {
@@ -36,10 +62,14 @@ pub fn make(transport: &str, kind: &str, offered: u64, legacy: bool, max_queue: 
     } else if transport == "mmio" {
         let dev = std::rc::Rc::new(std::cell::RefCell::new(crate::mmio::VirtioMmioDev::new(if legacy { 1 } else { 2 }, dt as u32, offered, nq, max_queue, cfg.clone())));
         let size = 0x100 + cfg.len();
+        CUR_MMIO.with(|c| *c.borrow_mut() = Some(dev.clone()));
+        CUR_PCI.with(|c| *c.borrow_mut() = None);
         let base = crate::mmio::map(size, dev, "mmio", 0);
         let hdr = std::ptr::NonNull::new(base as *mut VirtIOHeader).unwrap();
         AnyT::Mmio(unsafe { MmioTransport::new(hdr, size) }.expect("probe"))
     } else {
+        CUR_MMIO.with(|c| *c.borrow_mut() = None);
+        CUR_PCI.with(|c| *c.borrow_mut() = None);
         AnyT::Model(ModelTransport::new(dt, offered, legacy, nq, max_queue, cfg))
     }
 }
